@@ -53,6 +53,12 @@ func (m Misbehaviour) ValidateBasic() error {
 	if m.Header2 == nil {
 		return errorsmod.Wrap(ErrInvalidHeader, "misbehaviour Header2 cannot be nil")
 	}
+	if m.Header1.SignedHeader == nil || m.Header1.Header == nil {
+		return errorsmod.Wrap(ErrInvalidHeader, "misbehaviour Header1 signed header cannot be nil")
+	}
+	if m.Header2.SignedHeader == nil || m.Header2.Header == nil {
+		return errorsmod.Wrap(ErrInvalidHeader, "misbehaviour Header2 signed header cannot be nil")
+	}
 	if m.Header1.TrustedHeight.RevisionHeight == 0 {
 		return errorsmod.Wrapf(ErrInvalidHeaderHeight, "misbehaviour Header1 cannot have zero revision height")
 	}
